@@ -35,15 +35,19 @@ func pickSpec(prefix string, id uint64) aSpec {
 		sp.nBids = nd.Pick(prefix+"nBids", maxBids+1)
 		if sp.batch {
 			sp.nEnd = nd.Pick(prefix+"nEnd", nd.Param("maxEnd", 2)) + 1
-			sp.hasMatchedLen = nd.Pick(prefix+"hasLen", 2) == 1
+			// R8: the matched-bid count is stored at every end time, so it exists exactly
+			// when the auction has already been through one
+			sp.hasMatchedLen = sp.nEnd >= 2
 		}
 	case types.AuctionStatusVesting:
 		sp.nSched = nd.Pick(prefix+"nSched", maxSched) + 1
 		sp.nReleased = nd.Pick(prefix+"nReleased", sp.nSched) // last one unreleased
 		sp.nBids = nd.Pick(prefix+"nBids", 2)
+		sp.hasMatchedLen = sp.batch
 	case types.AuctionStatusFinished:
 		sp.nSched = nd.Pick(prefix+"nSched", maxSched+1)
 		sp.nBids = nd.Pick(prefix+"nBids", 2)
+		sp.hasMatchedLen = sp.batch
 	}
 	return sp
 }
